@@ -125,15 +125,16 @@ def record_cli_case(cid, corpora, srcfmt, destfmt, split, filt, mods, seed, orig
     try:
         dirmode = len(corpora) > 1
         names = []
+        # (a directory name may contain characters that mean something to glob / fnmatch)
+        sdir = 'srcdir' if seed % 2 == 0 else 'src[v2] dir'
         if dirmode:
-            os.mkdir(os.path.join(tmp, 'srcdir'))
+            os.mkdir(os.path.join(tmp, sdir))
         for ci, t in enumerate(texts):
-            fn = ('srcdir/f%d.%s' % (ci, srcfmt) if dirmode else 'src.' + srcfmt) + ('.gz' if gz else '')
+            fn = ('%s/f%d.%s' % (sdir, ci, srcfmt) if dirmode else 'src.' + srcfmt) + ('.gz' if gz else '')
             data = t.encode(src_enc)
-            with (gzip.open(os.path.join(tmp, fn), 'wb') if gz else open(os.path.join(tmp, fn), 'wb')) as f:
-                f.write(data)
+            fam_io.write_maybe_gz(os.path.join(tmp, fn), data, gz, rnd)
             names.append(fn)
-        src = 'srcdir' if dirmode else names[0]
+        src = sdir if dirmode else names[0]
         case['destnames'] = [n + '.dest' for n in names] if dirmode else ['dest.out']
         args = ['transform', src, 'dest.out', '--src-format', srcfmt, '--dest-format', destfmt,
                 '--src-enc', src_enc, '--dest-enc', dest_enc]
@@ -147,7 +148,7 @@ def record_cli_case(cid, corpora, srcfmt, destfmt, split, filt, mods, seed, orig
                      'filtervalue:%d' % filt['val']]
         rc, out, err = treetools(args, tmp)
         ev = {'a': 'run', 'rc': rc, 'files': [], 'argv': ' '.join(args), 'stderr': err[-300:] if rc else ''}
-        produced = sorted(f for f in (os.listdir(tmp) + ['srcdir/' + x for x in (os.listdir(os.path.join(tmp, 'srcdir')) if dirmode else [])])
+        produced = sorted(f for f in (os.listdir(tmp) + [sdir + '/' + x for x in (os.listdir(os.path.join(tmp, sdir)) if dirmode else [])])
                           if f.startswith('dest.out') or f.endswith('.dest'))
         case['partnames'] = ['dest.out.%d' % i for i in range(len(produced))] if split else []
         if rc == 0:
